@@ -121,6 +121,7 @@ type FetchRec struct {
 }
 
 type Result struct {
+	NonFinite []string `json:"non_finite,omitempty"` // result fields that held NaN / Inf (clamped to +-1e300 for transport)
 	ID           string                   `json:"id"`
 	Ops          []OpResult               `json:"ops"`
 	Steps        uint64                   `json:"steps"`
